@@ -1330,12 +1330,10 @@ class ReadParquetFSSpec(ReadParquet):
     def _get_lengths(self) -> tuple | None:
         """Return known partition lengths using parquet statistics"""
         if not self.filters:
+            # The collected statistics already cover exactly the selected
+            # partitions, in order (see _update_length_statistics)
             self._update_length_statistics()
-            return tuple(
-                length
-                for i, length in enumerate(self._pq_length_stats)
-                if not self._filtered or i in self._partitions
-            )
+            return tuple(self._pq_length_stats)
         return None
 
     def _update_length_statistics(self):
